@@ -33,18 +33,18 @@ void carquet_dispatch_gather_i32(const int32_t* dict, const uint32_t* indices, i
 
 /* ------------------------------------------------------------------ hook: record + perturb */
 
-typedef struct { int thread; int site; const void* obj; long a, b; } par_ev;
-#define PAR_EV_CAP 400000
-static par_ev* g_ev;
-static long g_nev;            /* atomic */
+#include "ops_par_shared.h"   /* the recorder / scheduler / thread pools are shared with ops_pardict.c */
+par_ev* g_ev;
+long g_nev;                   /* atomic */
 static int g_record;          /* record events */
 static int g_sched_on;        /* inject yields/sleeps */
+int g_crit_sched;             /* also at the boundaries of `omp critical` sections (sites 7/8, raised by ops_pardict.c) */
 static uint64_t g_sched_seed;
 static int g_next_tid;        /* atomic */
 static __thread int tl_tid = -1;
 static __thread uint64_t tl_cnt;
 
-static uint64_t mix64(uint64_t z) {
+uint64_t mix64(uint64_t z) {
     z += 0x9E3779B97F4A7C15ull;
     z = (z ^ (z >> 30)) * 0xBF58476D1CE4E5B9ull;
     z = (z ^ (z >> 27)) * 0x94D049BB133111EBull;
@@ -55,13 +55,23 @@ static uint64_t mix64(uint64_t z) {
 void carquet_verif_event(int site, const void* object, long a, long b) {
     if (!g_record && !g_sched_on) return;
     if (tl_tid < 0) tl_tid = __atomic_fetch_add(&g_next_tid, 1, __ATOMIC_SEQ_CST);
-    if (site != 0 && g_record) {
+    if (site != 0 && site < 7 && g_record) {
         long i = __atomic_fetch_add(&g_nev, 1, __ATOMIC_SEQ_CST);
         if (i < PAR_EV_CAP) { g_ev[i].thread = tl_tid; g_ev[i].site = site; g_ev[i].obj = object; g_ev[i].a = a; g_ev[i].b = b; }
     }
-    if (g_sched_on && (site == 0 || site == 3 || site == 4)) {
+    if (g_sched_on && (site == 0 || site == 3 || site == 4 || ((site == 7 || site == 8) && g_crit_sched))) {
         uint64_t r = mix64(g_sched_seed ^ ((uint64_t)tl_tid * 0x100000001B3ull) ^ (tl_cnt++ << 20));
         if (site == 3) { usleep(300 + (unsigned)(r % 1500)); return; }   /* keep initialisers overlapping */
+        if (site >= 7) {
+            /* boundary of a critical section (7: about to enter, 8: just left): the lock is NOT held here, so whoever
+             * waits for it can get in -- a pure schedule point for code whose sections are really atomic */
+            switch (r & 3) {
+            case 0: usleep((unsigned)((r >> 8) % 60)); break;
+            case 1: case 2: sched_yield(); break;
+            default: break;
+            }
+            return;
+        }
         switch (r & 7) {
         case 0: usleep((unsigned)((r >> 8) % 120)); break;
         case 1: case 2: sched_yield(); break;
@@ -70,16 +80,16 @@ void carquet_verif_event(int site, const void* object, long a, long b) {
     }
 }
 
-static void rec_begin(int record, int sched_on, uint64_t sched_seed) {
+void rec_begin(int record, int sched_on, uint64_t sched_seed) {
     if (!g_ev) g_ev = (par_ev*)malloc(sizeof(par_ev) * PAR_EV_CAP);
     __atomic_store_n(&g_nev, 0, __ATOMIC_SEQ_CST);
     g_sched_seed = sched_seed; g_sched_on = sched_on; g_record = record;
     __sync_synchronize();
 }
-static void rec_end(void) { g_record = 0; g_sched_on = 0; __sync_synchronize(); }
+void rec_end(void) { g_record = 0; g_sched_on = 0; __sync_synchronize(); }
 
 /* print the recorded trace as a flat list; objects renumbered by first appearance */
-static void print_trace(FILE* f, const char* key) {
+void print_trace(FILE* f, const char* key) {
     long n = g_nev < PAR_EV_CAP ? g_nev : PAR_EV_CAP;
     const void* objs[64]; int nobj = 0;
     fprintf(f, " %s=", key);
@@ -92,7 +102,7 @@ static void print_trace(FILE* f, const char* key) {
         fprintf(f, "%s%d,%d,%d,%ld,%ld", i ? "," : "", g_ev[i].thread, g_ev[i].site, o + 1, a, b);
     }
 }
-static int trace_threads(void) {
+int trace_threads(void) {
     long n = g_nev < PAR_EV_CAP ? g_nev : PAR_EV_CAP; int seen[256]; int k = 0;
     for (long i = 0; i < n; i++) { int f = 0; for (int j = 0; j < k; j++) if (seen[j] == g_ev[i].thread) f = 1; if (!f && k < 256) seen[k++] = g_ev[i].thread; }
     return k;
@@ -110,12 +120,11 @@ static const int col_vsize[PAR_MAXCOLS] = { 4, 8, 4, 8, 16, 1, (int)sizeof(carqu
 #define PAR_PAGE_ROWS 1024
 #define PAR_PAGE_SIZE 4096
 
-static uint64_t fnv(uint64_t h, const uint8_t* p, size_t n) {
+uint64_t fnv(uint64_t h, const uint8_t* p, size_t n) {
     for (size_t i = 0; i < n; i++) { h ^= p[i]; h *= 0x100000001B3ull; }
     return h;
 }
-static uint64_t fnv_u64(uint64_t h, uint64_t v) { return fnv(h, (const uint8_t*)&v, 8); }
-#define FNV0 0xCBF29CE484222325ull
+uint64_t fnv_u64(uint64_t h, uint64_t v) { return fnv(h, (const uint8_t*)&v, 8); }
 
 /* value of (column c, row r) of file fseed, as raw bytes (<= 16); returns the length */
 static int cell_bytes(uint64_t fseed, int c, long r, uint8_t out[16]) {
@@ -135,7 +144,7 @@ typedef struct { uint64_t fseed; int codec; long rows; int cols; char path[256];
                  uint64_t content[PAR_MAXCOLS]; int valid; } par_file;
 static par_file g_file;
 
-static const char* scratch_dir(void) {
+const char* scratch_dir(void) {
     const char* s = getenv("VERIF_SCRATCH");
     if (s && *s) return s;
     struct stat sb;
@@ -204,7 +213,7 @@ static int make_file(uint64_t fseed, int codec, long rows, int cols) {
 }
 static void drop_file(void) { if (g_file.valid) { unlink(g_file.path); g_file.valid = 0; } }
 
-static uint8_t* slurp(const char* path, long* n) {
+uint8_t* slurp(const char* path, long* n) {
     FILE* f = fopen(path, "rb"); if (!f) return NULL;
     fseek(f, 0, SEEK_END); *n = ftell(f); fseek(f, 0, SEEK_SET);
     uint8_t* p = h_alloc((size_t)*n);
@@ -292,16 +301,14 @@ static void* indep_main(void* p) {
     read_all(g_file.path, a->buf, a->blen, a->mode, a->nt, a->bs, a->cols, &a->r);
     return NULL;
 }
-#define PAR_MAXN 16
 
 /* A pool of threads that never exit.  carquet's zstd wrapper keeps one ZSTD_DCtx per thread in a
  * `__thread` pointer and never frees it, so every thread that has decompressed a ZSTD page and
  * then exits leaks ~96 KB (reported by LeakSanitizer; a finding for the leak properties, not for
  * C07).  Keeping the reader threads alive keeps this component's runs leak-clean without hiding
  * that leak from the other components of the harness binary. */
-typedef struct { pthread_t th; pthread_mutex_t mu; pthread_cond_t cv; void* (*fn)(void*); void* arg; int has_job, started; } pool_thr;
-static pool_thr g_ipool[2][PAR_MAXN];  /* independent readers, by num_threads class (1, >1) */
-static pool_thr g_rpool[8];            /* par_read: one thread per num_threads value, so that no
+pool_thr g_ipool[2][PAR_MAXN];  /* independent readers, by num_threads class (1, >1) */
+pool_thr g_rpool[8];            /* par_read: one thread per num_threads value, so that no
                                           OpenMP team ever shrinks (libgomp ends surplus workers) */
 static void* pool_main(void* p) {
     pool_thr* t = (pool_thr*)p;
@@ -317,7 +324,7 @@ static void* pool_main(void* p) {
     }
     return NULL;
 }
-static void pool_run(pool_thr* pool, int n, void* (*fn)(void*), void** args) {
+void pool_run(pool_thr* pool, int n, void* (*fn)(void*), void** args) {
     for (int i = 0; i < n; i++) {
         pool_thr* t = &pool[i];
         if (!t->started) {
